@@ -21,7 +21,8 @@ META = {
              'instances). An illegal attempt is a violation iff no exception occurred up to and including '
              'add_association AND the model serialisation contains it; a legal attempt that is refused violates the '
              '"expose" clause; non-trivial = language has >= 1 association and >= 1 defense; distinct = digest(spec)'
-             '; added strata: overriding defense re-declarations, same-named associations with the same field names, duplicate attempts after refused calls / with an empty other field / non-adjacent; languages with one field name at both ends (known finding)'),
+             '; added strata: overriding defense re-declarations, same-named associations with the same field names, duplicate attempts after refused calls / with an empty other field / non-adjacent; languages with one field name at both ends (known finding)'
+             '; round 7: language graph built through four routes (dict, .mar, saved specification, MAL source)'),
     'assumptions': ['python-jsonschema-objects is trusted as a library; what is monitored is the schema the factory feeds it'],
     'shards': {'quick': 8, 'thorough': 16},
     'quotas': {
